@@ -64,6 +64,8 @@ def instances(tier, seed):
         # 'first': direction pinned at an exact rational unit vector on every path (flips only over s and the origin)
         out.append(dict(name="%s:ray/eq" % s, args=[s, "ray"], paths=6 if tier == "quick" else 12, shape=s, query="ray", part="eq"))
         out.append(dict(name="%s:ray/first" % s, args=[s, "ray"], paths=6 if tier == "quick" else 12, shape=s, query="ray", part="first"))
+    for i in out:
+        i.setdefault("twin_timeout_ms", 10000)     # twins are model searches; an undecided twin is only a lost vacuity witness
     return out
 
 
